@@ -313,6 +313,14 @@ def interval(F, t, depth=0):
     s = P.strip(t, calls=False)
     if s != t:
         return interval(F, s, depth + 1)
+    if t[0] == "field" and t[2] == 0 and t[1][0] == "variant" and t[1][2] == "Some":
+        # the payload of `a.checked_sub(b)`: a - b where that is not negative
+        c_ = P.strip(t[1][1], calls=False)
+        if c_[0] == "call" and c_[1].startswith("core::num::") and c_[1].endswith("::checked_sub") and len(c_[2]) == 2:
+            a, b = interval(F, c_[2][0], depth + 1), interval(F, c_[2][1], depth + 1)
+            if a is not None and b is not None and a[1] - b[0] >= 0:
+                return (max(0, a[0] - b[1]), a[1] - b[0])
+        return None
     if t[0] == "bin" and t[1] in ("Add", "Sub", "Mul", "AddWithOverflow", "SubWithOverflow", "MulWithOverflow"):
         a, b = interval(F, t[2], depth + 1), interval(F, t[3], depth + 1)
         if a is None or b is None:
@@ -454,6 +462,9 @@ def discharge(F, cg, site, pr, ctxinfo):
             m = enum_code_max(F, site.info["index"])
             if m is not None and m < n:
                 return "R-enum-index"
+            iv = interval(F, site.info["index"])
+            if iv is not None and 0 <= iv[0] and iv[1] < n:
+                return "R-interval"
             # index is the item of a `for i in 0..CONST` loop? (not present in this crate)
     if site.kind == "assert-overflow":
         a, b = P.const_int(site.info["a"]), P.const_int(site.info["b"])
